@@ -519,7 +519,7 @@ func caseJSON(cs *caseT, obs [][]actT) map[string]interface{} {
 	}
 	if cs.Der != nil {
 		m["derivation"] = cs.Der
-		m["note"] = "writers[i] = zerolog.MultiLevelWriter(args...) where an argument is a destination of the derivation or the RESULT of an earlier MultiLevelWriter call (optionally wrapped); the history builds the writers and logs through them, all of them staying alive; this case is the history step derivation.this_case_is_history_step: events logged through the writer named there. cfg above = the destinations that writer was built from, flattened in argument order (cfg destination i = derivation destination derivation_destination_of_cfg_destination[i]); an observed call on a destination the writer was not built from is shown with an index beyond cfg's destinations"
+		m["note"] = "writers[i] = zerolog.MultiLevelWriter(args...) where an argument is a destination of the derivation or the RESULT of an earlier MultiLevelWriter call (optionally wrapped); the history builds the writers and logs through them, all of them staying alive; this case is the history step derivation.this_case_is_history_step: events logged through the writer named there. cfg above = the destinations that writer was built from, flattened in argument order (cfg destination i = derivation destination derivation_destination_of_cfg_destination[i]); an observed call on a destination the writer was not built from is shown with an index beyond cfg's destinations. History steps slice-*: statements of the caller on its own []io.Writer variables s_1, s_2 (caller_slice_statement.go is the statement as Go source); a writer with built_from_caller_slice = k was built as zerolog.MultiLevelWriter(s_k...) at its build step, its args being the contents of s_k at that moment; what the caller does with s_k afterwards does not change the destinations of the writer"
 	}
 	if cs.Hist != nil {
 		m["history"] = cs.Hist
@@ -759,7 +759,7 @@ func genCase(r *Rng) *caseT {
 // ---------------------------------------------------------------- driver
 
 func runC14(c *Ctx) {
-	c.Res.Rule = fmt.Sprintf("a case is (writer configuration: wrappers around MultiLevelWriter or a single destination, per destination a wrapper chain of SyncWriter/FilteredLevelWriter/LevelWriterAdapter over an io.Writer or LevelWriter fake; events with level/message/field; outcome matrix ok|error value|short write per event and destination; the error value of an outcome is one of %d kinds - opaque errors, the standard library sentinels themselves (os.ErrClosed, io.EOF, io.ErrClosedPipe, context.Canceled, net.ErrClosed, syscall errnos, ...), values wrapping them (%%w, *fs.PathError, *os.SyscallError, *net.OpError, multi-errors), Timeout/Temporary answers, an error whose Is matches every target, an empty text - directed sweep of every kind in sentinel and wrapped form through five destination positions with ErrorHandler and with the stderr fallback, the failing events also entering through each of the eleven entry points that end in the write (Msg, Msgf, Send, MsgFunc, Log, Logger.Write, Print, Printf, Println, Err(nil), Err(err)), and mixed into every other stream by error id; entry-point sweep: every entry point x {ok, error, short write, error behind a short write} x three writer shapes x ErrorHandler/stderr); observed = per logging call the ordered trace of destination calls (entry, level, bytes), ErrorHandler/stderr reports (error identity) and done. Bounded-exhaustive: all 3-outcome matrices for <=3 destinations x <=2 events (thorough: <=3 events) over 4 fixed kind assignments, the full filter-level x event-level grid; then seeded random (<=5 destinations, <=6 events, chains <=3); retune histories: one writer constructed once and used over 2-4 segments, the exported Level field of its FilteredLevelWriters assigned between segments (directed grid: every ordered pair old/new level x six filter positions x events at all levels before and after; seeded random), each segment shipped as one case under the levels then in force; writer derivations: writers built by MultiLevelWriter from destinations and from the results of earlier MultiLevelWriter calls (directed grid: a base fan-out of 1-4 destinations, extended 0-2 times by 1-2 destinations, then 2-3 sibling writers derived from the last one and one more from the base, the earlier writer as first / last / middle argument, all writers alive and logged through oldest-first / newest-first / as soon as built and again at the end; seeded random derivations of 2-7 writers, earlier writers also behind SyncWriter / FilteredLevelWriter), every destination recorded separately, each logging step shipped as one case over the flattened destinations of its writer. non-trivial = at least one reached destination fails and at least two destinations are configured; distinct by case text", len(errKinds))
+	c.Res.Rule = fmt.Sprintf("a case is (writer configuration: wrappers around MultiLevelWriter or a single destination, per destination a wrapper chain of SyncWriter/FilteredLevelWriter/LevelWriterAdapter over an io.Writer or LevelWriter fake; events with level/message/field; outcome matrix ok|error value|short write per event and destination; the error value of an outcome is one of %d kinds - opaque errors, the standard library sentinels themselves (os.ErrClosed, io.EOF, io.ErrClosedPipe, context.Canceled, net.ErrClosed, syscall errnos, ...), values wrapping them (%%w, *fs.PathError, *os.SyscallError, *net.OpError, multi-errors), Timeout/Temporary answers, an error whose Is matches every target, an empty text - directed sweep of every kind in sentinel and wrapped form through five destination positions with ErrorHandler and with the stderr fallback, the failing events also entering through each of the eleven entry points that end in the write (Msg, Msgf, Send, MsgFunc, Log, Logger.Write, Print, Printf, Println, Err(nil), Err(err)), and mixed into every other stream by error id; entry-point sweep: every entry point x {ok, error, short write, error behind a short write} x three writer shapes x ErrorHandler/stderr); observed = per logging call the ordered trace of destination calls (entry, level, bytes), ErrorHandler/stderr reports (error identity) and done. Bounded-exhaustive: all 3-outcome matrices for <=3 destinations x <=2 events (thorough: <=3 events) over 4 fixed kind assignments, the full filter-level x event-level grid; then seeded random (<=5 destinations, <=6 events, chains <=3); retune histories: one writer constructed once and used over 2-4 segments, the exported Level field of its FilteredLevelWriters assigned between segments (directed grid: every ordered pair old/new level x six filter positions x events at all levels before and after; seeded random), each segment shipped as one case under the levels then in force; writer derivations: writers built by MultiLevelWriter from destinations and from the results of earlier MultiLevelWriter calls (directed grid: a base fan-out of 1-4 destinations, extended 0-2 times by 1-2 destinations, then 2-3 sibling writers derived from the last one and one more from the base, the earlier writer as first / last / middle argument, all writers alive and logged through oldest-first / newest-first / as soon as built and again at the end; seeded random derivations of 2-7 writers, earlier writers also behind SyncWriter / FilteredLevelWriter; caller-owned argument slices: the writers built as MultiLevelWriter(s...) from a []io.Writer variable the caller goes on using - per-tenant reuse with one element replaced, element overwritten / set to nil after the build, truncate-and-append, refill, append into spare capacity, prefix of a shared array, an earlier writer swapped in - at every position of slices of 1-4 elements, and the seeded random derivations replayed with every build going through one of two such variables that are refilled per build and damaged afterwards), every destination recorded separately, each logging step shipped as one case over the flattened destinations of its writer. non-trivial = at least one reached destination fails and at least two destinations are configured; distinct by case text", len(errKinds))
 	var err error
 	stderrFile, err = os.Create(c.Out + "/stderr_capture.txt")
 	if err != nil {
@@ -1113,6 +1113,23 @@ func runC14(c *Ctx) {
 	for i := 0; i < nder; i++ {
 		emitDeriv(genDeriv(c.R.Fork()), "derivation-random")
 	}
+	// 5c. the same with caller-owned argument slices (derive.go, sliceGrid / viaCallerSlices): the writers are built
+	// as MultiLevelWriter(s...) from a slice variable the caller goes on using - overwrites an element, sets it to nil,
+	// appends, truncates and refills, builds the next writer from it - at every position of slices of 1..4 elements;
+	// every writer keeps exactly the destinations it was built with.
+	grid5c := sliceGrid()
+	for _, d := range grid5c {
+		emitDeriv(d, "derivation-caller-slice-grid")
+	}
+	nsl := 60
+	if c.Thorough() {
+		nsl = 2000
+	}
+	for i := 0; i < nsl; i++ {
+		r := c.R.Fork()
+		emitDeriv(viaCallerSlices(genDeriv(r), r), "derivation-caller-slice-random")
+	}
+	c.Res.ExtraCoverage["derivation_caller_slice_histories"] = len(grid5c) + nsl
 	c.Res.ExtraCoverage["derivation_histories"] = len(grid5b) + nder
 	c.Res.ExtraCoverage["derivation_logging_steps"] = derivSteps
 
